@@ -119,3 +119,83 @@ VMC_HARNESS(litmus_uaf, "ENGINE") {
   delete p;
   t.join();
 }
+
+// ---- store-buffer mode (--tso) ----------------------------------------------------------------------------------------
+// SB with release stores and acquire loads: 0/0 is allowed by the C++ memory model and by x86-TSO; with --tso it must be
+// reachable (needs one buffered store and one preemption), without --tso it must not be
+VMC_HARNESS(litmus_sb_rel, "ENGINE") {
+  std::atomic<int> x{0}, y{0};
+  int r0 = -1, r1 = -1;
+  std::thread t([&] { y.store(1, std::memory_order_release); r1 = x.load(std::memory_order_acquire); });
+  x.store(1, std::memory_order_release);
+  r0 = y.load(std::memory_order_acquire);
+  t.join();
+  vmc::note("r0=" + std::to_string(r0) + " r1=" + std::to_string(r1));
+}
+// the same with a seq_cst fence between store and load on both sides (Dekker): 0/0 impossible even with --tso
+VMC_HARNESS(litmus_sb_fence, "ENGINE") {
+  std::atomic<int> x{0}, y{0};
+  int r0 = -1, r1 = -1;
+  std::thread t([&] { y.store(1, std::memory_order_release); std::atomic_thread_fence(std::memory_order_seq_cst); r1 = x.load(std::memory_order_acquire); });
+  x.store(1, std::memory_order_release);
+  std::atomic_thread_fence(std::memory_order_seq_cst);
+  r0 = y.load(std::memory_order_acquire);
+  t.join();
+  vmc::check(!(r0 == 0 && r1 == 0), "ENGINE", "sb-00", "SB with seq_cst fences produced 0/0");
+  vmc::note("r0=" + std::to_string(r0) + " r1=" + std::to_string(r1));
+}
+// the unlock/lock shape of v2::async_mutex without its fence: unlocker stores locked=false then looks at the queue; locker
+// publishes itself then exchanges locked. With the store buffered the exchange still sees `true`: nobody serves the waiter.
+VMC_HARNESS(litmus_dekker_rmw, "ENGINE") {
+  std::atomic<bool> locked{true}; std::atomic<int> queued{0};
+  bool fence = vmcrt::arg(0, 0) != 0;
+  bool served_by_unlocker = false, served_by_locker = false;
+  std::thread t([&] {
+    queued.fetch_add(1, std::memory_order_acq_rel);
+    if (!locked.exchange(true, std::memory_order_acq_rel)) served_by_locker = true;
+  });
+  locked.store(false, std::memory_order_release);
+  if (fence) std::atomic_thread_fence(std::memory_order_seq_cst);
+  if (queued.load(std::memory_order_acquire) != 0) served_by_unlocker = true;
+  t.join();
+  vmc::note(std::string(served_by_unlocker ? "U" : "-") + (served_by_locker ? "L" : "-"));
+  vmc::check(served_by_unlocker || served_by_locker, "ENGINE", "lost-waiter", "neither side saw the other");
+}
+// message passing stays intact under TSO (stores drain in order): flag seen => data seen, with or without --tso
+VMC_HARNESS(litmus_mp_tso, "ENGINE") {
+  std::atomic<int> flag{0}, data{0};
+  int seen = -1;
+  std::thread t([&] { if (flag.load(std::memory_order_acquire)) seen = data.load(std::memory_order_relaxed); });
+  data.store(42, std::memory_order_relaxed);
+  flag.store(1, std::memory_order_release);
+  t.join();
+  vmc::check(seen == -1 || seen == 42, "ENGINE", "mp", "stale data under store buffering");
+  vmc::note(seen == -1 ? "notseen" : "seen");
+}
+// a spinning reader must eventually see a buffered store (buffers drain): no livelock / deadlock
+VMC_HARNESS(litmus_tso_spin, "ENGINE") {
+  std::atomic<int> flag{0}, ack{0};
+  std::thread t([&] { while (!flag.load(std::memory_order_acquire)) {} ack.store(1, std::memory_order_release); });
+  flag.store(1, std::memory_order_release);
+  while (!ack.load(std::memory_order_acquire)) {}
+  t.join();
+  vmc::note("ok");
+}
+
+// ---- spurious wake-ups (--spurious) -------------------------------------------------------------------------------------
+// `if (!flag) wait` instead of `while`: correct only if waits never return spuriously; with --spurious the waiter proceeds
+// although the flag is still false (arg0 = 1: the correct `while` form, must pass)
+VMC_HARNESS(litmus_spurious, "ENGINE") {
+  std::mutex m; std::condition_variable cv; bool flag = false; bool proceeded_unset = false;
+  bool loop = vmcrt::arg(0, 0) != 0;
+  std::thread t([&] {
+    std::unique_lock<std::mutex> lk(m);
+    if (loop) { while (!flag) cv.wait(lk); } else { if (!flag) cv.wait(lk); }
+    if (!flag) proceeded_unset = true;
+  });
+  { std::lock_guard<std::mutex> lk(m); flag = true; }
+  cv.notify_one();
+  t.join();
+  vmc::check(!proceeded_unset, "ENGINE", "woke-unset", "waiter proceeded although the flag was not set");
+  vmc::note("ok");
+}
